@@ -37,7 +37,7 @@ Qed.
 
 (* ---------------------------------------------------------------- scalar fields *)
 
-Ltac inv_fields I := destruct I as [Icrash Ipause Ipause1 Irun Irerun Ievents Ineed Iindex Iresp Iflight Iapps Iqueues].
+Ltac inv_fields I := destruct I as [Icrash Ipause Ipause1 Irun Irerun Ievents Ineed Iindex Iresp Isend Iflight Iapps Iqueues].
 
 Ltac rw_state :=
   repeat match goal with
@@ -57,7 +57,7 @@ Lemma step_pause s l s' : inv s -> step cfg_fixed s l = Some s' ->
   ewait s' + (if ebool epc_preclear (eng s') then 1 else 0) = (if erunning s' then 1 else 0) /\
   (rerun s' = true -> erunning s' = true).
 Proof.
-  intros I H. inv_fields I. clear Iapps Iqueues Iflight Iresp Iindex Ievents Ineed.
+  intros I H. inv_fields I. clear Iapps Iqueues Iflight Iresp Isend Iindex Ievents Ineed.
   step_inv H; simpl in *; unfold eq_or_end; rw_state; simpl in *.
   all: repeat match goal with |- context [if ?b then _ else _] => destruct b eqn:?; simpl in * end.
   all: try (destruct (ra s); simpl in *; repeat split; auto; try lia; try discriminate; fail).
@@ -69,7 +69,7 @@ Qed.
 
 Lemma step_crash s l s' : inv s -> step cfg_fixed s l = Some s' -> crashed s' = false.
 Proof.
-  intros I H. inv_fields I.
+  intros I H. inv_fields I. unfold flight in Iflight.
   step_inv H; simpl in *; auto; exfalso.
   - (* Unsubscribe *)
     match goal with Ha : nth_error (apps s) _ = Some _ |- _ => destruct (Iapps _ _ Ha) as (_ & Hpc & _) end.
@@ -77,13 +77,13 @@ Proof.
     destruct Hpc as (qq & E & Hin). apply mem_nat_In in Hin. congruence.
   - (* response for a queue that is not running *)
     destruct Iflight as (_ & Hf). destruct (Hf n) as (qq & E & R & C).
-    { apply in_or_app. right. left. reflexivity. }
+    { apply in_or_app. right. apply in_or_app. right. left. reflexivity. }
     congruence.
   - destruct Iflight as (_ & Hf). destruct (Hf n) as (qq & E & R & C).
-    { apply in_or_app. right. left. reflexivity. }
+    { apply in_or_app. right. apply in_or_app. right. left. reflexivity. }
     congruence.
   - destruct Iflight as (_ & Hf). destruct (Hf n) as (qq & E & R & C).
-    { apply in_or_app. right. left. reflexivity. }
+    { apply in_or_app. right. apply in_or_app. right. left. reflexivity. }
     congruence.
 Qed.
 
@@ -123,6 +123,21 @@ Proof.
   all: try (repeat match goal with |- context [if ?b then _ else _] => destruct b eqn:? end; simpl in *; auto; fail).
   all: try (intros; apply orb_true_r).
   all: try (intros; destruct (tick s); simpl in *; auto; fail).
+  all: intros; try discriminate; repeat match goal with |- context [if ?b then _ else _] => destruct b eqn:? end; simpl; apply orb_true_r.
+Qed.
+
+Lemma step_send s l s' : inv s -> step cfg_fixed s l = Some s' ->
+  nonempty (tosend s') = true -> tick s' || ebool (fun p => epc_at_send p || epc_mp p) (eng s') = true.
+Proof.
+  intros I H. pose proof (i_send s I) as Isend. clear I.
+  step_inv H; simpl in *; unfold eq_or_end in *; simpl; auto.
+  all: try (intros; discriminate).
+  all: try (intros; apply orb_true_r).
+  all: rw_state; simpl in *; auto.
+  all: try (repeat match goal with |- context [if ?b then _ else _] => destruct b eqn:? end; simpl in *; auto; fail).
+  all: try (intros; apply orb_true_r).
+  all: try (intros; destruct (tick s); simpl in *; auto; fail).
+  all: try (intros; match goal with H1 : tosend _ = [], H2 : nonempty (tosend _) = true |- _ => rewrite H1 in H2; discriminate end).
   all: intros; try discriminate; repeat match goal with |- context [if ?b then _ else _] => destruct b eqn:? end; simpl; apply orb_true_r.
 Qed.
 
@@ -405,9 +420,21 @@ Proof.
   rewrite app_assoc. rewrite <- Permutation_cons_append. reflexivity.
 Qed.
 
+Lemma send_perm (q : nat) r g p : Permutation (r ++ (g ++ [q]) ++ p) ((q :: r) ++ g ++ p).
+Proof.
+  simpl. rewrite <- (app_assoc g [q] p). simpl. rewrite (app_assoc r g (q :: p)).
+  apply Permutation_sym, Permutation_cons_app. rewrite app_assoc. reflexivity.
+Qed.
+
+Lemma start_perm (i : nat) t rest : Permutation ((t ++ [i]) ++ rest) (i :: t ++ rest).
+Proof. rewrite <- app_assoc. simpl. apply Permutation_sym, Permutation_middle. Qed.
+
+Lemma answer_perm q t g r : In q g -> Permutation (t ++ remove_first q g ++ r ++ [q]) (t ++ g ++ r).
+Proof. intros H. apply Permutation_app_head. apply move_perm. exact H. Qed.
+
 Definition flight_ok (s : state) : Prop :=
-  NoDup (gpu s ++ resp s) /\
-  forall q, In q (gpu s ++ resp s) ->
+  NoDup (flight s) /\
+  forall q, In q (flight s) ->
             exists qq, nth_error (queues s) q = Some qq /\ q_running qq = true /\ q_cmds qq <> [].
 
 Lemma flight_upd i f (qs : list queue) fl :
@@ -424,66 +451,71 @@ Qed.
 
 Lemma step_flight s l s' : inv s -> step cfg_fixed s l = Some s' -> flight_ok s'.
 Proof.
-  intros I H. destruct (i_flight s I) as (ND & FL). clear I. unfold flight_ok.
+  intros I H. destruct (i_flight s I) as (ND & FL). clear I. unfold flight_ok, flight in *.
   step_inv H; simpl in *; auto.
   all: try (split; [exact ND|]; eapply flight_upd; eauto; intros x Hx R C; simpl; unfold q_append; simpl; split; auto;
             intro X; apply app_eq_nil in X; destruct X; discriminate).
   all: repeat match goal with H : resp _ = _ |- _ => rewrite H in *; clear H end.
+  all: repeat match goal with H : tosend _ = _ |- _ => rewrite H in *; clear H end.
   all: try (split; assumption).
+  - (* sendToGPUs *)
+    pose proof (send_perm n l0 (gpu s) (resp s)) as P. split.
+    + eapply Permutation_NoDup; [symmetry; exact P|exact ND].
+    + intros q0 Hq0. apply FL. apply (Permutation_in _ P) in Hq0. exact Hq0.
   - (* a response is consumed *)
-    split; [eapply NoDup_remove_1; eauto|].
+    rewrite !app_assoc in ND. rewrite !app_assoc. split; [eapply NoDup_remove_1; eauto|].
     intros q0 Hq0. assert (Nq : q0 <> n).
     { intros ->. apply NoDup_remove_2 in ND. contradiction. }
-    rewrite nth_error_upd_other by auto. apply FL. apply in_app_or in Hq0. apply in_or_app.
+    rewrite nth_error_upd_other by auto. apply FL. rewrite !app_assoc. apply in_app_or in Hq0. apply in_or_app.
     destruct Hq0; [left|right; right]; assumption.
   - (* a no-op command is removed from a queue that is not running *)
     split; [exact ND|]. intros q0 Hq0. assert (Nq : q0 <> i).
     { intros ->. destruct (FL _ Hq0) as (qq & E & R & _). congruence. }
     rewrite nth_error_upd_other by auto. auto.
   - (* an asynchronous command starts *)
-    assert (Ni : ~ In i (gpu s ++ resp s)).
+    assert (Ni : ~ In i (tosend s ++ gpu s ++ resp s)).
     { intros Hi. destruct (FL _ Hi) as (qq & E & R & _). congruence. }
-    split.
-    + rewrite <- app_assoc. simpl. apply NoDup_Add with (a := i) (l := gpu s ++ resp s); [|constructor; auto].
-      apply Add_app.
-    + intros q0 Hq0. destruct (Nat.eq_dec i q0) as [->|N].
+    pose proof (start_perm i (tosend s) (gpu s ++ resp s)) as P. split.
+    + eapply Permutation_NoDup; [symmetry; exact P|]. constructor; auto.
+    + intros q0 Hq0. apply (Permutation_in _ P) in Hq0. destruct (Nat.eq_dec i q0) as [->|N].
       * erewrite nth_error_upd_same by eassumption. eexists; split; [reflexivity|]. simpl. split; auto. congruence.
-      * rewrite nth_error_upd_other by assumption. apply FL.
-        rewrite <- app_assoc in Hq0. apply in_app_or in Hq0. apply in_or_app.
-        destruct Hq0 as [?|[?|?]]; auto. congruence.
+      * rewrite nth_error_upd_other by assumption. apply FL. destruct Hq0; [congruence|assumption].
   - (* the GPU answers *)
-    apply mem_nat_In in Heqb0. pose proof (move_perm q _ (resp s) Heqb0) as P. split.
+    apply mem_nat_In in Heqb0. pose proof (answer_perm q (tosend s) _ (resp s) Heqb0) as P. split.
     + eapply Permutation_NoDup; [symmetry; exact P|exact ND].
     + intros q0 Hq0. apply FL. eapply Permutation_in; eauto.
 Qed.
 
 Lemma step_running s l s' : inv s -> step cfg_fixed s l = Some s' ->
-  forall q qq, nth_error (queues s') q = Some qq -> q_running qq = true -> In q (gpu s' ++ resp s').
+  forall q qq, nth_error (queues s') q = Some qq -> q_running qq = true -> In q (flight s').
 Proof.
   intros I H q qq' Hq R.
-  assert (IQ : forall q qq, nth_error (queues s) q = Some qq -> q_running qq = true -> In q (gpu s ++ resp s))
+  assert (IQ : forall q qq, nth_error (queues s) q = Some qq -> q_running qq = true -> In q (flight s))
     by (intros q1 qq1 E1; apply (i_queues s I q1 qq1 E1)).
-  clear I.
+  clear I. unfold flight in *.
   step_inv H; simpl in *; eauto.
   all: repeat match goal with H : resp _ = _ |- _ => rewrite H in *; clear H end.
+  all: repeat match goal with H : tosend _ = _ |- _ => rewrite H in *; clear H end.
   all: try (apply nth_error_upd_inv in Hq; destruct Hq as (x & Hq & ->);
-            match goal with |- context [_] => idtac end;
             match type of R with context [if Nat.eqb ?a ?b then _ else _] => destruct (Nat.eqb a b) eqn:E end;
             simpl in R; try discriminate; eauto; fail).
   all: try (eapply IQ; eauto; fail).
+  - (* sendToGPUs *)
+    eapply Permutation_in; [symmetry; apply send_perm|]. eapply IQ; eauto.
   - (* response consumed *)
     apply nth_error_upd_inv in Hq. destruct Hq as (x & Hq & ->).
     destruct (Nat.eqb n q) eqn:E; simpl in R; [discriminate|].
-    pose proof (IQ _ _ Hq R) as Hin. apply in_app_or in Hin. apply in_or_app.
+    pose proof (IQ _ _ Hq R) as Hin. rewrite !app_assoc in Hin. rewrite !app_assoc.
+    apply in_app_or in Hin. apply in_or_app.
     destruct Hin as [?|[->|?]]; auto. rewrite Nat.eqb_refl in E. discriminate.
   - (* asynchronous start *)
     apply nth_error_upd_inv in Hq. destruct Hq as (x & Hq & ->).
-    rewrite <- app_assoc. apply in_or_app. simpl.
+    eapply Permutation_in; [symmetry; apply start_perm|]. simpl.
     destruct (Nat.eqb i q) eqn:E; simpl in R.
-    + apply Nat.eqb_eq in E. subst. right. left. reflexivity.
-    + pose proof (IQ _ _ Hq R) as Hin. apply in_app_or in Hin. destruct Hin; auto.
+    + apply Nat.eqb_eq in E. subst. left. reflexivity.
+    + right. eapply IQ; eauto.
   - (* GPU answers *)
-    apply mem_nat_In in Heqb0. eapply Permutation_in; [symmetry; apply move_perm; exact Heqb0|]. eapply IQ; eauto.
+    apply mem_nat_In in Heqb0. eapply Permutation_in; [symmetry; apply answer_perm; exact Heqb0|]. eapply IQ; eauto.
 Qed.
 
 Definition dirty_ex (ap : list app) : Prop := exists t a, nth_error ap t = Some a /\ a_dirty a = true.
@@ -564,6 +596,7 @@ Proof.
   - eapply step_need; eauto.
   - eapply step_index; eauto.
   - eapply step_resp; eauto.
+  - eapply step_send; eauto.
   - exact (step_flight _ _ _ I H).
   - eapply step_apps; eauto.
   - intros q qq Hq. split.
